@@ -32,6 +32,7 @@ EXPLANATION = (
     "rounding of scaled values (int(float(v) * scale)) is a value-level question and is deliberately not decided."
     " (R4) write_setting hands the looked-up setting and the caller's value to _write_setting exactly once; write_setting('modbus-N', v) sends int(v) to register int(id[7:]) and read_setting('modbus-N') decodes it signed."
     ' read_setting(id) for a known id returns the awaited read of exactly that setting.'
+    ' (R5, shared with C16.R1) the single read behind read_setting requests ceil(size_/2) registers at the setting and decodes the answer from its first byte.'
 )
 
 
@@ -212,6 +213,9 @@ def r4_known_ids(ctx: Ctx, rep: Report):
     from .c18 import _lookup_truth
     from ..replay import Replay
     prog = ctx.prog
+    rep.rule("C17.R5", "the read-back asks for exactly the setting's registers and decodes the answer from its first byte (shared with C16.R1)", 3)
+    from .c16 import single_read_form
+    single_read_form(ctx, rep, "C17.R5")
     rep.rule("C17.R4", "write_setting hands the looked-up setting and the caller's value to _write_setting exactly once; the modbus-N escape reads back signed what it wrote", 4)
     for fam in ("ET", "DT", "ES"):
         fn = prog.cls(fam).methods.get("write_setting")
